@@ -38,6 +38,9 @@
 #include <opm/input/eclipse/Schedule/SummaryState.hpp>
 #include <opm/input/eclipse/Python/Python.hpp>
 #include <opm/common/OpmLog/OpmLog.hpp>
+#include <opm/output/data/Solution.hpp>
+#include <opm/output/data/Cells.hpp>
+#include <opm/output/eclipse/RestartValue.hpp>
 
 #include <algorithm>
 #include <cmath>
@@ -121,13 +124,27 @@ double sampleValue(vh::Rng& rng) {
     }
 }
 
+// a keyword of the compiled parser by the name getAllDeckNames() lists it under; wild-card keywords
+// (deck_name_regex, e.g. TRDCY.+) are only reachable through a matching deck name
+const ParserKeyword* findKeyword(const Parser& parser, const std::string& name) {
+    if (parser.hasKeyword(name)) return &parser.getKeyword(name);
+    for (const char* suffix : { "X", "1", "A", "XX", "F1", "" }) {
+        try {
+            const auto& kw = parser.getParserKeywordFromDeckName(name + suffix);
+            if (kw.getName() == name) return &kw;
+        } catch (const std::exception&) {}
+    }
+    return nullptr;
+}
+
 // distinct dimension strings of the *compiled* parser keywords (generated C++ from the JSON)
 std::vector<std::string> compiledDimStrings(std::map<std::string, std::string>* firstUser = nullptr) {
     Parser parser;
     std::set<std::string> out;
     for (const auto& name : parser.getAllDeckNames()) {
-        if (!parser.hasKeyword(name)) continue;            // wildcard (summary) collections: no dimensions
-        const auto& kw = parser.getKeyword(name);
+        const ParserKeyword* pkw = findKeyword(parser, name);
+        if (!pkw) continue;                                 // summary collections: no dimensions
+        const auto& kw = *pkw;
         for (const auto& rec : kw)
             for (const auto& item : rec)
                 for (const auto& d : item.dimensions()) {
@@ -135,6 +152,40 @@ std::vector<std::string> compiledDimStrings(std::map<std::string, std::string>* 
                 }
     }
     return std::vector<std::string>(out.begin(), out.end());
+}
+
+// "KEYWORD.record.ITEM" -> dimension list, for every item of the compiled parser that has one
+std::map<std::string, std::string> compiledItemDims() {
+    Parser parser;
+    std::map<std::string, std::string> out;
+    for (const auto& name : parser.getAllDeckNames()) {
+        const ParserKeyword* pkw = findKeyword(parser, name);
+        if (!pkw) continue;
+        const auto& kw = *pkw;
+        size_t r = 0;
+        for (const auto& rec : kw) {
+            for (const auto& item : rec) {
+                if (item.dimensions().empty()) continue;
+                std::string ds;
+                for (const auto& d : item.dimensions()) ds += (ds.empty() ? "" : ",") + d;
+                out[kw.getName() + "." + std::to_string(r) + "." + item.name()] = ds;
+            }
+            ++r;
+        }
+    }
+    return out;
+}
+
+std::string cellsStr(const data::Solution& sol) {
+    std::string s;
+    for (const auto& kv : sol) {
+        if (!s.empty()) s += ";";
+        s += std::to_string(static_cast<int>(kv.second.dim)) + ":";
+        const auto& v = kv.second.data<double>();
+        if (v.empty()) s += "-";
+        for (size_t i = 0; i < v.size(); ++i) s += (i ? "," : "") + fbits(v[i]);
+    }
+    return s.empty() ? "-" : s;
 }
 
 std::string randomComposite(vh::Rng& rng, bool allowBad) {
@@ -379,6 +430,18 @@ std::string writeDeck(const Model& m, const UnitSystem& u) {
     o << "DENSITY\n " << W(u, "Density", m.rhoO) << " " << W(u, "Density", m.rhoW) << " " << W(u, "Density", m.rhoG) << " /\n";
     o << "ROCK\n " << W(u, "Pressure", m.rockPref) << " " << W(u, "1/Pressure", m.rockC) << " /\n";
     o << "RTEMP\n " << W(u, "Temperature", m.rtemp) << " /\n";
+    // tables: only their deck items are compared (pressure, FVF, viscosity, capillary pressure, depth/temperature)
+    o << "PVDO\n";
+    for (int i = 0; i < 3; ++i) o << " " << W(u, "Pressure", m.pvtwPref * (0.5 + i)) << " " << g17(1.2 - 0.05 * i) << " " << W(u, "Viscosity", m.pvtwMuw * (2 + i)) << "\n";
+    o << "/\nPVDG\n";
+    for (int i = 0; i < 3; ++i) o << " " << W(u, "Pressure", m.pvtwPref * (0.5 + i)) << " " << W(u, "ReservoirVolume/GasSurfaceVolume", 0.02 / (1 + i)) << " " << W(u, "Viscosity", m.pvtwMuw * 0.02 * (1 + i)) << "\n";
+    o << "/\nSWOF\n";
+    for (int i = 0; i < 3; ++i) o << " " << g17(0.2 + 0.4 * i) << " " << g17(0.5 * i) << " " << g17(1.0 - 0.5 * i) << " " << W(u, "Pressure", m.pcowc * (2 - i)) << "\n";
+    o << "/\nSGOF\n";
+    for (int i = 0; i < 3; ++i) o << " " << g17(0.4 * i) << " " << g17(0.5 * i) << " " << g17(1.0 - 0.5 * i) << " " << W(u, "Pressure", m.pcgoc * i) << "\n";
+    o << "/\nRTEMPVD\n";
+    for (int i = 0; i < 2; ++i) o << " " << W(u, "Length", m.datumDepth + 500.0 * i) << " " << W(u, "Temperature", m.rtemp + 15.0 * i) << "\n";
+    o << "/\n";
     o << "SOLUTION\nEQUIL\n " << W(u, "Length", m.datumDepth) << " " << W(u, "Pressure", m.datumP) << " " << W(u, "Length", m.owc) << " "
       << W(u, "Pressure", m.pcowc) << " " << W(u, "Length", m.goc) << " " << W(u, "Pressure", m.pcgoc) << " 1* 1* 0 /\n";
     o << "SCHEDULE\nWELSPECS\n 'P1' 'G' 1 1 " << W(u, "Length", m.refDepth) << " 'OIL' /\n 'I1' 'G' 2 2 1* '" << (m.oilInjector ? "OIL" : "WATER") << "' /\n/\n";
@@ -528,6 +591,38 @@ int main(int argc, char** argv) {
             sink.emit("units.kwdims", joined);
             sink.count("kwdims", (long) dims.size());
         }
+        // (4b) per item: the dimension list the generated C++ attaches == the JSON's
+        {
+            auto items = compiledItemDims();
+            sink.emit("units.kwitemcount", std::to_string(items.size()));
+            for (const auto& kv : items) { sink.emit("units.kwitem " + kv.first, kv.second); sink.count("kwitem"); }
+        }
+        // (4c) data::Solution conversion sequences (output side)
+        {
+            const int nsol = thorough ? 400 : 60;
+            for (int k = 0; k < nsol; ++k) {
+                const auto& u = systems[rng.below(systems.size())];
+                data::Solution sol(true);
+                int nc = rng.range(0, 5);
+                for (int c = 0; c < nc; ++c) {
+                    std::vector<double> v;
+                    int n = rng.range(0, 4);
+                    for (int i = 0; i < n; ++i) v.push_back(sampleValue(rng));
+                    char nm[16]; std::snprintf(nm, sizeof nm, "K%03d", c);
+                    sol.insert(nm, static_cast<M>(rng.coin(1, 6) ? 0 : rng.below(NMEASURE)), v, data::TargetType::RESTART_SOLUTION);
+                }
+                const std::string before = cellsStr(sol);
+                std::string calls;
+                int ncalls = rng.range(1, 5);
+                for (int c = 0; c < ncalls; ++c) {
+                    if (rng.coin()) { sol.convertFromSI(u); calls += "F"; } else { sol.convertToSI(u); calls += "T"; }
+                }
+                // the si flag is private: finish every sequence with convertToSI, so the final state is SI
+                data::Solution probe = sol; probe.convertToSI(u);
+                sink.emit("units.sol " + sysId(u) + " " + calls + "T " + before, "1 " + cellsStr(probe));
+                sink.count("solution");
+            }
+        }
         // (5) parse / getNewDimension of every keyword string and of random composites, every system
         std::vector<std::string> strs = dims;
         const int nrand = thorough ? 4000 : 400;
@@ -568,7 +663,13 @@ int main(int argc, char** argv) {
     }
 
     if (mode == "prop") {
-        vh::PropLog log(outdir + "/prop.txt");
+        // at most one FAIL line per key reach prop.txt (all are counted)
+        struct DedupLog {
+            vh::PropLog inner; std::map<std::string, int> seen; long checked = 0, failed = 0;
+            explicit DedupLog(const std::string& p) : inner(p) {}
+            void ok() { ++checked; }
+            void fail(const std::string& key, const std::string& detail) { ++failed; if (seen[key]++ < 1) inner.fail(key, detail); }
+        } log(outdir + "/prop.txt");
         std::map<std::string, long> stats;
         const int nsamples = thorough ? 400 : 60;
         // (a) round trips on the real tables, scalar and vector overloads
@@ -731,6 +832,43 @@ int main(int argc, char** argv) {
                 }
             }
             stats["decks"]++;
+        }
+        // (g) output side: data::Solution / RestartValue convert with the same tables, idempotently, and back
+        {
+            const int nsol = thorough ? 300 : 40;
+            for (int k = 0; k < nsol; ++k) {
+                const auto& u = systems[rng.below(4)];
+                data::Solution sol(true);
+                RestartValue rv;
+                std::vector<std::vector<double>> orig(NMEASURE);
+                for (int m = 0; m < NMEASURE; ++m) {
+                    int n = rng.range(1, 3);
+                    for (int i = 0; i < n; ++i) orig[m].push_back(sampleValue(rng));
+                    char nm[16]; std::snprintf(nm, sizeof nm, "K%03d", m);
+                    sol.insert(nm, static_cast<M>(m), orig[m], data::TargetType::RESTART_SOLUTION);
+                    rv.addExtra(nm, static_cast<M>(m), orig[m]);
+                }
+                rv.solution = sol;
+                rv.convertFromSI(u);
+                RestartValue twice = rv; twice.convertFromSI(u);
+                RestartValue back = rv; back.convertToSI(u);
+                for (int m = 0; m < NMEASURE; ++m) {
+                    char nm[16]; std::snprintf(nm, sizeof nm, "K%03d", m);
+                    const auto mm = static_cast<M>(m);
+                    const double off = u.getDimension(mm).getSIOffset();
+                    const auto& a = rv.solution.data<double>(nm); const auto& e = rv.getExtra(nm);
+                    const auto& a2 = twice.solution.data<double>(nm);
+                    const auto& b = back.solution.data<double>(nm); const auto& be = back.getExtra(nm);
+                    for (size_t i = 0; i < orig[m].size(); ++i) {
+                        const double want = m == 0 ? orig[m][i] : u.from_si(mm, orig[m][i]);
+                        const std::string key = "output." + u.getName() + "." + std::to_string(m);
+                        if (a[i] != want || e[i] != u.from_si(mm, orig[m][i])) log.fail(key, "convertFromSI differs from from_si at " + g17(orig[m][i])); else log.ok();
+                        if (a2[i] != a[i]) log.fail(key + ".idempotent", "second convertFromSI changed the solution"); else log.ok();
+                        if (!closeRel(b[i], orig[m][i], 8, std::fabs(off)) || !closeRel(be[i], orig[m][i], 8, std::fabs(off))) log.fail(key + ".roundtrip", "convertToSI(convertFromSI(x)) x=" + g17(orig[m][i]) + " got " + g17(b[i])); else log.ok();
+                        stats["output_values"]++;
+                    }
+                }
+            }
         }
         std::ofstream f(outdir + "/prop_stats.json");
         f << "{\n  \"checked\": " << log.checked << ",\n  \"failed\": " << log.failed;
